@@ -76,3 +76,20 @@ Theorem C05_good_url_chars :
   forall v, gurl reformat v -> forallb url_char v = true.
 Proof. exact good_url_chars. Qed.
 Print Assumptions C05_good_url_chars.
+
+(* ---- the validator the rules call is the direct definition ---------------------------------------------------
+   validateLink is written with two regular expressions (regenerated from /repo on every run and executed by the
+   backtracking matcher of Base/Regex.v).  On EVERY string they compute the prefix tests the scheme theorems above speak
+   about - so C05_validated_scheme / C05_emitted_url_safe apply to what the rule models actually call. *)
+From MD Require Import Base.Regex Gen.Regexes Lemmas.RegexLit.
+Theorem C05_bad_proto_regex_is_prefix_test : forall u, test re_normalize_url_BAD_PROTO_RE u = bad_proto u.
+Proof. exact bad_proto_re. Qed.
+Print Assumptions C05_bad_proto_regex_is_prefix_test.
+
+Theorem C05_good_data_regex_is_prefix_test : forall u, test re_normalize_url_GOOD_DATA_RE u = good_data u.
+Proof. exact good_data_re. Qed.
+Print Assumptions C05_good_data_regex_is_prefix_test.
+
+Theorem C05_validator_regex_is_direct : forall url, validate_link_re url = validate_link url.
+Proof. exact validate_link_re_eq. Qed.
+Print Assumptions C05_validator_regex_is_direct.
